@@ -96,7 +96,7 @@ fn main() {
         if !found { eprintln!("HARNESS-ERROR canary: locate() does not find the attribute of a byte"); std::process::exit(3); }
     }
 
-    let n = ctx.tier.pick(20_000, 1_500_000);
+    let n = ctx.tier.pick(100_000, 1_500_000);
     run_cases(&ctx, &replay, &mut rep, "generated", n, |rng, rep, _| {
         let with_two = rng.chance(1, 4); let m = gen::gen_class(rng, if with_two { &cfg } else { &cfg1 });
         let mut layout = if rng.bool() { emit::Layout::canonical() } else { emit::Layout::random(rng.next_u64()) }; layout.two_slot_fillers = with_two;
@@ -145,7 +145,7 @@ fn main() {
     });
 
     // raw values: whatever read() returns for index/flag/value-mutated files must survive write -> read unchanged
-    let nraw = ctx.tier.pick(20_000, 1_500_000);
+    let nraw = ctx.tier.pick(100_000, 1_500_000);
     run_cases(&ctx, &replay, &mut rep, "raw-values", nraw, |rng, rep, _| {
         let m = gen::gen_class(rng, &cfg1);
         let mut layout = emit::Layout::random(rng.next_u64()); layout.two_slot_fillers = false;
